@@ -168,3 +168,15 @@ PROPS["C09"] = {
 }
 
 NOT_APPLICABLE = {}
+
+PROPS["C07"] = {
+    "modules": ["Foundation.Proofs.C07"],
+    "facts": True,
+    "level_text": "Machine-checked: for every history of proposals (committed or simulated-and-dropped, succeeding or failing) whose bodies touch the in-memory token metadata only after a load, every reply and the final ledger are independent of what the process had in memory (history_mem_irrelevant), so a long-lived and a fresh instance agree on every step, and dropped proposals change nothing (dropped_simulation_irrelevant); sorted write lists and the batch commit are independent of map iteration order. Per-run obligations re-extracted from the source: every BaseToken method loads before its first use of bt.config, the load assigns a fresh object, Invoke re-applies the configuration first, and the long-lived objects / package variables are exactly the ones accounted for. The pre-fix behaviour is kept as a proved counterexample (stale_fee_counterexample). Tie: the property's own experiment - every proposal of a random history is simulated on the long-lived instance, on a fresh one and again, and compared byte for byte (reply, write-set, event).",
+    "level_note": "Trusted: Lean kernel + 3 axioms; the fact extractor's syntactic reading of token/*.go (source order stands for control flow); Go map iteration order is exercised only by chance (repeated runs); the model's method bodies are hand transcriptions checked by the differential run; tracing/logging state is not modelled; Go memory-model races between concurrent invocations are out of scope (C17).",
+    "trusted_base": ["token/token.go, token/*.go metadata users modelled by Foundation.Process (bodies as Step lists)", "facts: tokenCfgEvents, tokenLoadFresh, invokeConfiguresFirst, configureApplies, persistentFields, packageVars (go/parser, re-extracted each run)"],
+    "hypotheses": ["bodies are disciplined (first touch of bt.config is a load) - discharged for the current source by facts_process"],
+    "not_modelled": ["telemetry/tracing handler state", "logger", "data races on shared fields under true parallelism"],
+    "assumptions": ["the simulated peer gives all three simulations the same committed state, tx id, timestamp and creator"],
+    "timeout": 3000,
+}
